@@ -7,6 +7,7 @@ Each agent sees only the text of its property and the one-line summaries of the 
 import glob, json, os, sys
 
 R = int(sys.argv[1])
+STYLE = sys.argv[2] if len(sys.argv) > 2 else "exotic"  # exotic | simple
 here = os.path.dirname(os.path.abspath(__file__))
 props = [json.loads(l) for l in open(os.path.join(here, "..", "properties.jsonl"))]
 out = f"/tmp/agent-prompts{R}"
@@ -38,6 +39,13 @@ DELIVERABLES, for change number k = 1..3, in directory /tmp/seeded-out{R}/{ID}/k
 Leave the worktree clean when done. Final answer: a SHORT report (under 12 lines) listing, per change, the one-line summary and what is needed to manifest it. Do not paste diffs into the final answer.
 """
 
+SIMPLE_TASK = """YOUR TASK: produce 5 DIFFERENT small changes to the library source (non-test .go files under /tmp/wt{R}-{ID}, e.g. element.go, scalar.go, group.go, xmd.go, mapping.go, internal/field/*.go, internal/scalar/*.go), each a REALISTIC SLIP of one to five changed lines — the kind of mistake a maintainer really makes and a reviewer really overlooks: an off-by-one in a loop bound or a slice index, a wrong comparison operator (< for <=), swapped arguments or operands, a missing, inverted or duplicated condition, a typo in one digit of a constant or in one entry of a constant table, a dropped carry/borrow, a forgotten negation / reduction / normalisation, a stale or shadowed variable, the wrong variable after copy-paste (x for y, r0 for r1), a missing early return, an ignored error or flag, an index that should have been i+1, a condition on the wrong operand, a step of a numbered algorithm skipped or done twice. For each change:
+  1. the module still compiles and the EXISTING test suite still passes unedited:  cd /tmp/wt{R}-{ID} && go build ./... && go test -vet=off -count=1 ./...   (many slips are caught by the tests: discard those and try others — work through the code the property depends on, line by line, and ask of each line what the smallest plausible slip is that the tests would not notice)
+  2. the change BREAKS the property above (for at least one input / schedule / history),
+  3. you provide a DEMONSTRATION: a Go test file (package secp256k1_test or an in-module test, whichever you need) or a small main program that FAILS with the change applied and PASSES on the unmodified tree. The demonstration is not part of the change.
+The 5 changes must be at 5 different code sites. Do not build elaborate new features, caches or fast paths: small slips only.
+"""
+
 for p in props:
     ID = p["id"]
     prev = []
@@ -48,6 +56,12 @@ for p in props:
             continue
         prev.append("  - " + m["summary"][:260])
     q = p["quantifier"]["text"] if isinstance(p.get("quantifier"), dict) else str(p.get("quantifier"))
-    txt = T.format(R=R, ID=ID, title=p["title"], statement=p["statement"], quant=q, NPREV=["No", "One", "Two", "Three", "Four", "Five", "Six"][R - 1], PREV="\n".join(prev) + "\n")
+    TT = T
+    if STYLE == "simple":
+        a = TT.index("YOUR TASK:")
+        b = TT.index("{NPREV} earlier rounds")
+        TT = TT[:a] + SIMPLE_TASK + "\n" + "Earlier rounds already produced the changes listed below for this property; do not repeat any of them (same site AND same slip).\n{PREV}" + TT[TT.index("Read the source first"):]
+        TT = TT.replace("for change number k = 1..3", "for change number k = 1..5").replace("{NPREV}", "")
+    txt = TT.format(R=R, ID=ID, title=p["title"], statement=p["statement"], quant=q, NPREV=["No", "One", "Two", "Three", "Four", "Five", "Six"][R - 1], PREV="\n".join(prev) + "\n")
     open(os.path.join(out, ID + ".txt"), "w").write(txt)
 print(out, len(props))
